@@ -18,3 +18,10 @@ func TestVerifC05Walk(t *testing.T) {
 		t.Fatal(err)
 	}
 }
+
+// clone-early stage (BigToc(n) of Toc.tla): Clone immediately after NewReader, the clone is walked.
+func TestVerifC05CloneEarly(t *testing.T) {
+	if err := metadata.C05CloneEarly("memory", NewReader); err != nil {
+		t.Fatal(err)
+	}
+}
